@@ -95,7 +95,8 @@ func runC11(s *kernel.Sim) {
 		return harness && inGroup && isLockPoint(point) && siteOn(a[0])
 	}
 
-	current := "marker-0" // reference: marker of the newest successfully applied version
+	current := "marker-0"            // reference: marker of the newest successfully applied version
+	alsoCurrent := map[string]bool{} // after overlapping changes: every marker that may be the newest
 	lastLoaded := "marker-0"
 	var applySeqs []uint64 // sequence numbers at which `current` changed (start of the apply)
 	var open []*c11txn
@@ -131,6 +132,7 @@ func runC11(s *kernel.Sim) {
 		}
 		var ops []*op
 		applyInGroup := false
+		configOps := 0
 		used := map[*c11txn]bool{}
 		for j := 0; j < k; j++ {
 			c := tp.Weighted([]int{5, 5, 3, 1, 1, 1})
@@ -146,15 +148,28 @@ func runC11(s *kernel.Sim) {
 					ops = append(ops, &op{kind: "resp", t: t})
 				}
 			default:
-				if applyInGroup {
-					continue // one configuration change at a time (admin calls are serial)
+				// an admin call and a fail-safe revert (own goroutine) can overlap; two
+				// configuration changes at most, and at most one of them an apply (the
+				// policies file is written by the operator, one writer)
+				kind := []string{"apply", "apply-fail", "revert-free", "revert-last"}[c-2]
+				if applyInGroup && (configOps >= 2 || strings.HasPrefix(kind, "apply")) {
+					continue
 				}
-				applyInGroup = true
-				ops = append(ops, &op{kind: []string{"apply", "apply-fail", "revert-free", "revert-last"}[c-2]})
+				if strings.HasPrefix(kind, "apply") {
+					applyInGroup = true
+				}
+				configOps++
+				ops = append(ops, &op{kind: kind})
 			}
 		}
 		before := current
 		startSeq := s.Seq()
+		acceptable := map[string]bool{current: true}
+		lastLoadedBefore := lastLoaded
+		installed := false
+		for m := range alsoCurrent {
+			acceptable[m] = true
+		}
 		for _, o := range ops {
 			o := o
 			switch o.kind {
@@ -201,6 +216,8 @@ func runC11(s *kernel.Sim) {
 					}
 					current = fmt.Sprintf("marker-%d", marker)
 					lastLoaded = current
+					acceptable[current] = true
+					installed = true
 				}
 			case "revert-free", "revert-last":
 				o.run = func() {
@@ -213,6 +230,11 @@ func runC11(s *kernel.Sim) {
 					s.Event(o.kind, lastLoaded, fmt.Sprint(err))
 					if err == nil {
 						current = lastLoaded
+						acceptable[current] = true
+						installed = true
+						// a revert overlapping an apply may have read the loaded-policies
+						// file before or after the apply persisted it
+						acceptable[lastLoadedBefore] = true
 					}
 				}
 			}
@@ -237,12 +259,23 @@ func runC11(s *kernel.Sim) {
 		if current != before {
 			applySeqs = append(applySeqs, startSeq)
 		}
+		// with two overlapping configuration changes the one installed last wins,
+		// which the harness cannot observe: every marker touched stays acceptable
+		// until the next change that runs alone
+		if configOps >= 2 {
+			for m := range acceptable {
+				alsoCurrent[m] = true
+			}
+			s.FaultFired("overlapping_configuration_changes")
+		} else if configOps == 1 && len(ops) == 1 && installed {
+			alsoCurrent = map[string]bool{} // a change that ran alone and installed a version settles it
+		}
 		// judge fresh transactions of this step
 		for _, o := range ops {
 			switch o.kind {
 			case "req":
 				s.Rule("R2")
-				ok := o.t.reqM == current || (len(ops) > 1 && o.t.reqM == before)
+				ok := o.t.reqM == current || alsoCurrent[o.t.reqM] || (len(ops) > 1 && acceptable[o.t.reqM])
 				if !ok {
 					s.Violate("R2", "new-transaction-on-old-version", "transaction %s first seen at %v got %s, the newest applied version is %s", o.t.id, o.t.reqT, o.t.reqM, current)
 				}
